@@ -20,6 +20,7 @@
 EXTENDS Naturals, FiniteSets, TLC
 
 CONSTANTS MaxRot,      \* rotations attempted in one behaviour
+          MaxCrash,    \* crashes in one behaviour
           Recovery     \* "latest" | "oldest" | "none"
 
 VARIABLES rows,        \* stored keysets: set of [idx, active]
@@ -59,7 +60,7 @@ Fault == /\ ~faulted /\ pc \in {"r1", "r2", "r3", "r4"} /\ faulted' = TRUE
          /\ UNCHANGED <<rows, mem, cur, n, crashes, stable>>
 
 \* ---- crash and restart (LoadMint) ----
-Crash == pc \notin {"down", "l1", "l2"} /\ crashes < 2 /\ crashes' = crashes + 1 /\ pc' = "down" /\ mem' = 99
+Crash == pc \notin {"down", "l1", "l2"} /\ crashes < MaxCrash /\ crashes' = crashes + 1 /\ pc' = "down" /\ mem' = 99
          /\ UNCHANGED <<rows, cur, n, faulted, stable>>
 Load1 == pc = "down" /\ pc' = "l1" /\ UNCHANGED <<rows, mem, cur, n, crashes, faulted, stable>>      \* GetKeysets
 Load2 == /\ pc = "l1"
